@@ -96,7 +96,7 @@ def verify(i, tests=False):
          'commands': ['git worktree add --detach %s HEAD' % scratch(i), 'PYTHONPATH=%s:demo python demo.py  (unpatched) -> %d' % (scratch(i), rc0),
                       'git apply seeded/%s/patch.diff' % i, 'PYTHONPATH=%s:demo python demo.py  (patched) -> %d' % (scratch(i), rc1)]}
     if tests:
-        t = sh('cd %s && %s -m pytest -q -p no:cacheprovider --timeout=900 --continue-on-collection-errors -x -q optimism 2>&1 | tail -3' % (scratch(i), PY))
+        t = sh('cd %s && %s -m pytest -q -p no:cacheprovider --timeout=900 --continue-on-collection-errors optimism 2>&1 | tail -3' % (scratch(i), PY))
         tail = t.stdout.strip().splitlines()[-1] if t.stdout.strip() else ''
         mm = re.search(r'(\d+) passed', tail)
         v['tests_summary'] = tail
